@@ -388,7 +388,21 @@ class Plugin(object):
         from octoprint.plugin import plugin_settings
         self.M = M
         self.env = env
-        unit = M.ExcludeRegionPlugin()
+        # the way OctoPrint gets hold of the plugin: __plugin_load__() publishes the implementation and the hook table; a hook that
+        # is not in the table is never called, an implementation that is not of the mixin type never gets events / requests
+        M.__plugin_load__()
+        unit = M.__plugin_implementation__
+        table = M.__plugin_hooks__ or {}
+
+        def hook(name):
+            h = table.get(name)
+            return h[0] if isinstance(h, tuple) else h
+        self.h_gcode = hook("octoprint.comm.protocol.gcode.queuing")
+        self.h_at = hook("octoprint.comm.protocol.atcommand.queuing")
+        self.h_script = hook("octoprint.comm.protocol.scripts")
+        import octoprint.plugin as OP
+        self.is_event_handler = isinstance(unit, OP.EventHandlerPlugin)
+        self.is_api = isinstance(unit, OP.SimpleApiPlugin)
         unit._identifier = "excluderegion"
         unit._logger = make_logger(bool((settings or {}).get("debug")), "octoprint.plugins.excluderegion.vp")
         unit._plugin_manager = RecordingPluginManager()
@@ -452,12 +466,15 @@ class Plugin(object):
                     payload["time"] = 12.5
         elif "path" in payload:
             self.file_path = payload["path"]
-        self.unit.on_event(name, dict(payload))
+        if self.is_event_handler:
+            self.unit.on_event(name, dict(payload))
 
     def api(self, command, data, anon=False):
         self.user.anon = anon
         self.M.current_user = self.user
         try:
+            if not self.is_api:
+                return ("not an API plugin", 404)
             # OctoPrint hands the plugin the whole JSON body, which still carries the "command" key
             return self.unit.on_api_command(command, dict(data, command=command))
         finally:
@@ -470,17 +487,18 @@ class Plugin(object):
     def gcode(self, cmd):
         gc, sub = hook_gcode(cmd)
         n0 = len(self.arc.log)
-        raw = self.unit.handleGcodeQueuing(self.comm, "queuing", cmd, None, gc, sub)
+        # OctoPrint's calling convention: sub-code and tags are keyword arguments
+        raw = None if self.h_gcode is None else self.h_gcode(self.comm, "queuing", cmd, None, gc, subcode=sub, tags=set())
         samples = list(self.arc.log[-1][2]) if len(self.arc.log) > n0 else None
         return raw, normalise(raw, cmd), samples
 
     def at(self, cmd, params):
         self.comm.take()
-        res = self.unit.handleAtCommandQueuing(self.comm, "queuing", cmd, params)
+        res = None if self.h_at is None else self.h_at(self.comm, "queuing", cmd, params, tags=set())
         return res, self.comm.take()
 
     def script(self, stype, sname):
-        return self.unit.handleScriptHook(self.comm, stype, sname)
+        return None if self.h_script is None else self.h_script(self.comm, stype, sname)
 
     @property
     def state(self):
